@@ -127,6 +127,44 @@ def run_configs(ctx, configs, budget_s, mandatory=0):
     return done
 
 
+def orbit_class_forests(desc, n):
+    from sim import orbits
+    from sim.statinv import tree_class
+
+    if desc["kind"] == "singletons":
+        return orbits.class_all_forests_of_singletons(n, desc.get("n_out", 0))
+    if desc["kind"] == "structure":
+        def tup(x):
+            return tuple(tup(y) for y in x)
+        return orbits.class_fixed_structure(tup(desc["structure"]), n, bool(desc.get("outliers")))
+    if desc["kind"] == "all":
+        d = {}
+        for f in models.enumerate_forests(range(n), outliers=bool(desc.get("outliers"))):
+            d.setdefault(tree_class(models.canon(f)), f)
+        return list(d.values())
+    raise ValueError(desc)
+
+
+def run_orbit_classes(ctx, specs, max_leaves=400000):
+    """Exact kernels on closed classes of larger trees, lumped by symmetry (sim/orbits.py)."""
+    from sim import orbits
+
+    out = []
+    for c, desc in specs:
+        st, probs = orbits.run_class(c, orbit_class_forests(desc, c["n"]), max_leaves=max_leaves)
+        if st is None:
+            ctx.probe("orbit_class_over_leaf_budget_not_judged")
+            continue
+        out.append({"config": {k: c[k] for k in ("op", "n", "alpha", "outlier_prob", "proposal", "N", "threshold", "wiring", "data_seed")}, "class": desc, **st})
+        ctx.cov["evaluations"] += st["orbits"]
+        ctx.cov["leaves_visited"] = ctx.cov.get("leaves_visited", 0) + st["leaves"]
+        ctx.fault("rng.outcome", st["leaves"])
+        for key, detail, extra in probs:
+            ctx.violation(key, detail + " | config " + json.dumps(c, sort_keys=True) + " class " + json.dumps(desc), {"orbit": True, "config": c, "class": desc, "key": key})
+    ctx.cov["orbit_lumped_exact_kernels"] = ctx.cov.get("orbit_lumped_exact_kernels", []) + out
+    ctx.probe("labelled_states_represented_by_orbit_lumped_kernels", sum(o["labelled_states_represented"] for o in out))
+
+
 def run_stat_configs(ctx, configs, M):
     """Sampled invariance on five data points with all-different likelihoods (see sim/statinv.py)."""
     from sim import statinv
@@ -169,6 +207,17 @@ def check_pinned(ctx):
 
 
 def replay(ctx, obj):
+    if obj.get("orbit"):
+        from sim import orbits
+
+        bridge.warm_up()
+        st, probs = orbits.run_class(obj["config"], orbit_class_forests(obj["class"], obj["config"]["n"]), max_leaves=3000000)
+        for key, detail, extra in probs or []:
+            if key == obj["key"]:
+                ctx.violation(key, detail, obj)
+                break
+        ctx.cov["evaluations"] = 1
+        return
     if obj.get("stat"):
         from sim import statinv
 
